@@ -6,11 +6,11 @@ import CattrsModel.Overrides.Model
 `OVR ((<key> <target#>)…)` — the user's dict after `get_origin(k) or k` (entries in the user's order; a key may repeat
 when the user gave two spellings of it).
 
-reply `(res (closed (<key> <target#>)…) (copy (<key> <target#>)…) (cont (<decl> <target#>|keep)…) (spec (<key> <target#>|-)…))`
+reply `(res (closed (<key> <target#>)…) (copy (<key> <target#>)…) (cont (<decl> <target#>)…) (spec (<key> <target#>|-)…))`
 
 * `closed`: `_unstruct_collection_overrides` after `__init__`, in insertion order;
 * `copy`: the same of `converter.copy()`;
-* `cont`: per declared collection type the container (`keep` = no consumer reached: the value is returned unchanged);
+* `cont`: per declared collection type the container;
 * `spec`: per key the answer of the DOCUMENTED rule (`specLookup`), for the check's three-way comparison.
 
 `DFACT <Converter? 0|1> <tuple strategy? 0|1> <factory#>` — reply: the target id of the container of class nodes.
@@ -59,9 +59,7 @@ def overridesHandle (op : String) (args : List Sexp) : Option Sexp :=
         .list (.atom "closed" :: sexpOfMap co),
         .list (.atom "copy" :: sexpOfMap (copyOf co)),
         .list (.atom "cont" :: allDecls.map (fun d => .list [.atom (declName d),
-            match containerOf co d with
-            | some t => ofNat t
-            | none => .atom "keep"])),
+            ofNat (containerOf co d)])),
         .list (.atom "spec" :: allKeys.map (fun k => .list [.atom (keyName k),
             match specLookup (norm u) k with
             | some t => ofNat t
